@@ -30,7 +30,9 @@ MODULE_ANALYSES = ["taint:t000", "taint:t010", "taint:e00", "backtrace:b0", "bac
 SINGLE_ANALYSES = ["taint:t100"]
 POOL = 4
 BATCH = 25
-SOFT = 10          # CPU seconds: a run that exceeds it is a suspect (stacks recorded)
+SOFT = 8           # CPU seconds, one program: a run that exceeds it is a suspect (stacks recorded)
+NREPS = 2          # suspects confirmed with the hard bound per known finding (pinned input first)
+MODBOUND = 30      # CPU seconds, module of 25 programs: beyond it the analysis is re-run program by program
 
 CONFIG_TMPL = """options:
   log-level: 1
@@ -155,12 +157,24 @@ def sig_of(o, det):
     return timeout_signature(det) if o == "timeout" else signature(det)
 
 
-def known_for(kf, analysis, sig):
+def constructs_of(desc):
+    """the constructs of an input (never a hash): edge kinds, recursion forms and data shapes of a call-graph shape;
+    steps and decorations of a chain"""
+    if "shape" in desc:
+        return optlib.shape_constructs(desc["shape"])
+    return {"step:" + s for s, _ in desc["chain"]} | {"deco:" + d for _, d in desc["chain"]}
+
+
+def known_for(kf, analysis, sig, constructs):
+    """a failure is attributed to a known finding by the analysis it occurs in, its crash site (signature) and -- where
+    the entry says so -- a construct the input must contain"""
     for e in kf:
         if e.get("status") != "known":
             continue
         m = e.get("match", {})
         if m.get("analysis") and analysis not in m["analysis"]:
+            continue
+        if m.get("constructs_any") and not (set(m["constructs_any"]) & constructs):
             continue
         if all(s in sig for s in m.get("signature_contains", ["\0"])):
             return e
@@ -250,7 +264,7 @@ class Runner:
                     self.combination_only.append((mod, [p.name for p in sub], a, o, det[:6000]))
 
     def module(self, mod, plist):
-        r = self.run_set(mod, None, MODULE_ANALYSES, self.hard)
+        r = self.run_set(mod, None, MODULE_ANALYSES, MODBOUND)
         if r["load"]["n"] != len(plist):
             raise Inconclusive("crashrun loaded %d packages, expected %d in %s" % (r["load"]["n"], len(plist), mod))
         self.split(mod, list(plist), MODULE_ANALYSES, whole=r)
@@ -318,7 +332,7 @@ def run(ctx):
     for k, rec in sim:
         shapes[k] = rec
     # similar programs next to each other: failures cluster in few modules
-    shape_list = sorted(shapes.values(), key=lambda r: (sorted({e["k"] for e in r["edges"]} & {"closure", "defer", "go"}),
+    shape_list = sorted(shapes.values(), key=lambda r: (sorted(set(r["shapes"]) & {"recstruct", "reciface", "generic"}),
                                                         sorted(r["shapes"]), optlib.shape_key(r)))
 
     # ---- 2. the C01 program space (chains with decorations) -------------------------------------------------
@@ -330,7 +344,9 @@ def run(ctx):
     if not thorough:
         # quick: every chain of one decorated step, a seeded sample of the two-step chains, the simulated ones
         rnd.shuffle(two)
-        two = two[:250]
+        two = two[:120]
+        rnd.shuffle(rest)
+        rest = rest[:60]
     else:
         rnd.shuffle(rest)
         rest = rest[:1500]
@@ -404,13 +420,9 @@ def run(ctx):
     def do_mod(m):
         plist = mods[m]
         if plist and plist[0].kind == "pinned":
-            for p in plist:
+            for p in plist:     # pinned inputs: one program, one analysis per process, soft bound first
                 for a in p.req:
-                    if a in SINGLE_ANALYSES:
-                        rn.single(p, a)
-                mas = [a for a in p.req if a not in SINGLE_ANALYSES]
-                if mas:
-                    rn.split(m, [p], mas)
+                    rn.single(p, a)
         else:
             rn.module(m, plist)
     vlib.pmap(do_mod, sorted(mods), nproc=POOL)
@@ -422,12 +434,12 @@ def run(ctx):
     suspects = [(p, a) for p in allp for a in sorted(p.outs) if p.outs[a] == "suspect"]
     to_confirm, reps = [], {}
     for p, a in suspects:
-        e = known_for(kf, a, timeout_signature(p.detail[a]))
+        e = known_for(kf, a, timeout_signature(p.detail[a]), constructs_of(p.desc))
         if e is None:
             to_confirm.append((p, a))
         else:
             reps.setdefault(e["id"], [])
-            if len(reps[e["id"]]) < 3:
+            if len(reps[e["id"]]) < NREPS:
                 reps[e["id"]].append((p, a))
                 to_confirm.append((p, a))
     vlib.pmap(lambda pa: rn.confirm(*pa), to_confirm, nproc=POOL)
@@ -468,7 +480,7 @@ def run(ctx):
         p = byname[f["prog"]]
         det = p.detail.get(f["a"], "")
         sig = sig_of(f["o"], det)
-        e = known_for(kf, f["a"], sig)
+        e = known_for(kf, f["a"], sig, constructs_of(p.desc))
         if e:
             seen_known.setdefault(e["id"], []).append((p, f["a"]))
         else:
@@ -501,7 +513,7 @@ def run(ctx):
             key="C07/%s/%s" % (akind, sig))
     for mod, names, a, o, det in rn.combination_only[:5]:
         sig = sig_of(o, det)
-        if known_for(kf, a, sig):
+        if known_for(kf, a, sig, set()):
             continue
         ctx.violation("analysis %s fails (%s) on the module of programs %s although it returns on every part: %s" % (
             a, o, names, sig[:400]), {"crash.txt": det, "module.txt": mod}, key="C07/combo/" + sig)
@@ -520,6 +532,7 @@ def run(ctx):
         q = cp[len(cp) // 2]
         ctx.sample({"chain": q.desc["chain"], "outcomes": q.outs})
     ctx.extra.update({
+        "chains_one_step": len(one), "chains_two_steps": len(two), "chains_longer": len(rest),
         "programs": len(allp), "shape_programs": len(sp), "shapes_exhaustive": nexh, "shapes_simulated": len(sim),
         "chain_programs": len(cp), "chains_exhaustive_space": nchexh, "pinned_inputs": len(pin_progs),
         "field_sensitive_sample": len(fs), "process_runs": rn.runs, "outcomes": outs,
@@ -534,8 +547,8 @@ def run(ctx):
         "bound: %d CPU seconds of the analysing process per analysis run (a module of 25 programs needs < 3 s); CPU time, "
         "not wall clock, so that machine load cannot produce a timeout" % HARD,
         "field-sensitive taint analysis (known to blow up) is run program by program on a seeded sample with a %d s soft "
-        "bound; suspects whose stack matches a known finding are confirmed with the full bound by 3 representatives "
-        "per finding, all other suspects individually" % SOFT,
+        "bound; suspects whose stack matches a known finding are confirmed with the full bound by %d representatives "
+        "per finding, all other suspects individually" % (SOFT, NREPS),
         "the generated programs are well-typed: the loader type-checks and compiles them (load error = exit 2)",
     ]
     ctx.finish_args = dict(exhaustive=True, evaluations=sum(len(p.outs) for p in allp), distinct=len(allp),
